@@ -71,8 +71,8 @@ static int err_code(std::exception_ptr ep)
 static int ec_code(pika::error_code const& ec)
 {
     if (!ec) return 1;
-    if (ec.value() == pika::error::deadlock) return 2;
-    if (ec.value() == pika::error::lock_error) return 3;
+    if (ec.value() == static_cast<int>(pika::error::deadlock)) return 2;
+    if (ec.value() == static_cast<int>(pika::error::lock_error)) return 3;
     return 9;
 }
 
